@@ -93,10 +93,19 @@ def ex_history(R):
     steps = []
     script = b'w! dinit\n'
     pending = 0
+    big = R.random() < 0.06
+    if big:
+        # one command that logs more splices than the undo log holds before it grows (128, 256, ...): undone and redone as a whole
+        lines = ['l%d a' % i for i in range(R.choice([120, 129, 200, 260, 520]))]
+        n = len(lines)
     for k in range(R.randint(5, 30)):
         x = R.random()
         if x < 0.55 or not steps:
             cmd = gen.ex_modify(R, max(n, 1), 'mixed')
+            if big:
+                cmd = R.choice([b'%s/^/A/\n', b'g/./s/$/B/\n', b'1,140s/l/L/\n', b'%s/a/bb/\n', b'g/l/s/ / _/\n', b'2,$d\n', b'1,$!cat\n'])
+            elif R.random() < 0.06:
+                cmd = R.choice([b'e!\n', b'e!\n', b'e\n'])      # re-reading the file is a change like any other: one step, history kept
             if cmd.count(b'\n') == 1 and R.random() < 0.2:
                 # a command line that edits and then fails: still one command, hence one undo step
                 cmd = cmd[:-1] + R.choice([b'|99999p', b'|r /nonexistent/file', b'|nosuchcommand', b"|'zp", b'|/no such text anywhere/p']) + b'\n'
